@@ -385,6 +385,48 @@ func runC08(ctx *report.Ctx) {
 			b.all(ctx, c, "programs", siteBudget)
 		}
 	})
+	// readers: nodes with indented blocks distributed over several readers (the state of one reader's
+	// lexing must not leak into the next)
+	part(ctx, "readers", -1, func(c *explore.Chooser) {
+		nn := 2 + c.Choose(2, "nnodes")
+		p := &yc.Program{}
+		for i := 0; i < nn; i++ {
+			t := []string{"A", "B", "C"}[i]
+			var body []*yc.Stmt
+			switch c.Choose(4, "body") {
+			case 0:
+				body = []*yc.Stmt{yc.Line(t + "1")}
+			case 1:
+				body = []*yc.Stmt{yc.Options(&yc.Option{Line: yc.TextLine(t + "o"), Body: []*yc.Stmt{yc.Line(t + "in")}}, &yc.Option{Line: yc.TextLine(t + "p")}), yc.Line(t + "after")}
+			case 2:
+				body = []*yc.Stmt{yc.Options(&yc.Option{Line: yc.TextLine(t + "o"), Body: []*yc.Stmt{yc.Options(&yc.Option{Line: yc.TextLine(t + "deep"), Body: []*yc.Stmt{yc.Line(t + "deepest")}})}})}
+			case 3:
+				body = []*yc.Stmt{yc.Line(t + "1"), yc.Options(&yc.Option{Line: yc.TextLine(t + "last"), Body: []*yc.Stmt{yc.Line(t + "end of file inside a body")}})}
+			}
+			if i+1 < nn {
+				body = append(body, yc.Jump([]string{"A", "B", "C"}[i+1]))
+			}
+			p.Nodes = append(p.Nodes, &yc.Node{Title: t, Body: body})
+		}
+		if !c.Mine() {
+			return
+		}
+		b := newC08Base(ctx, p)
+		if b == nil {
+			return
+		}
+		ctx.Count("programs", 1)
+		for _, comp := range compositions(nn) {
+			if len(comp) == 1 {
+				continue
+			}
+			for _, g := range []namedLayout{{"lf", &yc.Layout{}}, {"crlf", &yc.Layout{EOL: "\r\n"}}, {"tab", &yc.Layout{Unit: "\t"}}} {
+				q := *p
+				q.Split = comp
+				b.compare(ctx, c, "readers", "readers-"+intsString(comp)+"-"+g.name, yc.Render(&q, g.lay), true)
+			}
+		}
+	})
 	depth := report.Pick(ctx, 2, 3)
 	part(ctx, "nesting", -1, func(c *explore.Chooser) {
 		n := 0
